@@ -18,7 +18,8 @@
 //!   D2 VIOLATION  an item is serialized under one id and introspected under another (or is not in the layout):
 //!                 the layout the type id is computed from is not the wire layout
 //!   D3 VIOLATION  the type id of the derived type is not the id of hand-built IR with the ids used on the wire
-//!   D4 VIOLATION  pairwise across the corpus (types whose wire ids are the specification's): equal CanonId <=> equal TypeId
+//!   D4 VIOLATION  pairwise across the corpus (types whose wire ids are the specification's and that D2 / D3 did not name):
+//!                 equal CanonId <=> equal TypeId
 //!      DRIFT      the wire ids are not the specification's assignment although layout and wire agree (the derive
 //!                 numbers consistently, but not by the documented rule): conformance, not C20
 //!      DRIFT      by-value and by-reference serialization disagree, the derived Deserialize does not give back the value
@@ -344,7 +345,7 @@ pub fn main(entries: &[Entry]) {
             drift.add("the wire ids of a derived type are not the specification's assignment (layout and wire agree)", case());
         }
         agreeing += (wire_is_spec && !d2) as u64;
-        conforming.push(wire_is_spec);
+        let mut in_classes = wire_is_spec && !d2;
 
         // conformance beyond the statement
         checks += 3 * spec.len() as u64;
@@ -372,7 +373,9 @@ pub fn main(entries: &[Entry]) {
             let mut c = case();
             c["hand_built_type_id"] = json!(hand_wire.0.to_string());
             viol.add("D3 the type id of a derived type is not the id of hand-built IR with the ids used on the wire", c);
+            in_classes = false;
         }
+        conforming.push(in_classes);
         type_ids.push(o.type_id);
         if samples.len() < 3 && v["positional"] == json!(false) {
             samples.push(json!({"id": id, "pat": v["pat"], "expected_ids": v["ids"], "wire_ids": ids_json(&o.wire), "layout_ids": ids_json(&layout_ids),
